@@ -21,7 +21,7 @@ from .. import impl
 from .. import parsecheck as P
 
 PID = 'C01'
-CONFIGS = ['SY_ops.cfg', 'SY_args.cfg', 'SY_refs.cfg', 'SY_union.cfg']
+CONFIGS = ['SY_ops.cfg', 'SY_args.cfg', 'SY_refs.cfg', 'SY_union.cfg', 'SY_assoc.cfg']
 
 
 def tlc_obligations(rep, configs, maxlen_bump=0):
